@@ -181,7 +181,7 @@ def check_opreturn(proc, chain, coin, start=0, end=None, prefix="opreturn"):
     if proc.rc != 0:
         return [(prefix + ":exit", "opreturn exited %s: %s" % (proc.rc, (proc.err or proc.out)[-400:]))]
     exp = model.opreturn_expected(chain, coin, start, end)
-    text = "\n".join(model.strip_log(proc.out))
+    text = model.canon_opreturn("\n".join(model.strip_log(proc.out)))
     # expected text: each line prefix+payload+"\n" (payloads may contain newlines themselves). Outputs whose printed text
     # is not pinned (ANY) may be absent or carry anything up to the next expected prefix: both alternatives are tried.
     best = [0, 0]
